@@ -6,8 +6,9 @@
 // (norm of a direction, momentum of a particle, T_max of a delta ray): those enter the
 // trace only as rank-abstracted residuals next to their tolerance brackets.
 //
-// usage: vinteract samples <out.ndjson> <seed> <n_per_variant> [variant-filter|all] [drawcap]
-//        vinteract alloc   <out.ndjson> <seed> <rounds>
+// usage: vinteract samples <out.ndjson> <seed> <n_per_variant> [variant-filter|all] [drawcap] [watchdog_s]
+//        vinteract alloc   <out.ndjson> <seed> <rounds>      (sequential allocator binding)
+//        env VERIF_C04_EDGE=<delta>: exploration aid, every incident energy = lo (1 + delta)
 //
 // Record vocabulary (one JSON object per line):
 //   Config  particles, twom (2 m_e c^2 in MeV, informational), tolerances, draw cap
@@ -18,16 +19,14 @@
 //           rk{zero,ntol,mom,momfix,momtol,cutE,cutG,kn,floor,tmaxlo,thrU}, info{...}
 //   Hang    a call did not return within the watchdog period (trace ends)
 //   Close   per-class coverage counts measured by the harness (bookkeeping, no expectations)
-//   Alloc   one round of concurrent StackAllocator calls (mode alloc)
+//   AllocInit/AllocCall/AllocClear  one-thread call sequences on the real StackAllocator (mode alloc)
 #include <atomic>
 #include <chrono>
 #include <cmath>
-#include <csignal>
 #include <cstdlib>
 #include <functional>
 #include <limits>
 #include <memory>
-#include <mutex>
 #include <set>
 #include <thread>
 
